@@ -39,7 +39,11 @@ TRUSTED = [
 ]
 RULE = ('generated schemas (rule references incl. the same rule twice in one name, nested references, redefinitions, temporary rules '
         'and patterns, constraints on temporaries / inherited named patterns / patterns of other rules, multi-option and multi-set '
-        'constraints, $eq, $eq_type and a scripted user function); names = instances and near-instances (one component changed, one '
+        'constraints, $eq, $eq_type and a scripted user function; hardening motifs: a rule defined 2-3 times whose later definitions carry '
+        'the temporaries / constraints / references / signers and which is referred to 2-3 times from one name, one rule referred to '
+        'three times, references nested two deep with a constraint added at every level, a temporary rule identifier defined twice); '
+        'some names carry a parameters-digest or implicit-digest component at the end or inside (only a LAST implicit digest is ignored); '
+        'names = instances and near-instances (one component changed, one '
         'component dropped/added) of every alternative plus random names up to length 5 over the alphabet {every literal of the schema} '
         '+ two fresh components (one generic, one typed); thorough: additionally all names up to length 3. Compared: ordered match '
         'lists (rule names, bindings) of the Lean matcher on the exported node pool vs the real Checker, before and after save/load; '
@@ -48,7 +52,7 @@ RULE = ('generated schemas (rule references incl. the same rule twice in one nam
 
 
 def cases(rng, tier):
-    n = 260 if tier == 'quick' else 8000
+    n = 360 if tier == 'quick' else 8000
     k = 22 if tier == 'quick' else 40
     fns = L.user_fns(L.FN_NAMES)
     for i in range(n):
@@ -56,6 +60,10 @@ def cases(rng, tier):
         spec = L.Spec(schema, fns)
         if spec.static_errors():
             continue
+        asym = L.asym_variant(rng, schema) if rng.random() < 0.1 else None
+        if asym is not None:
+            # an argument-order-sensitive user function (unknown to the Lean model): judged by the oracle only
+            schema, spec = asym, L.Spec(asym, L.user_fns(L.FN_NAMES + ['$first']))
         names = L.gen_names(rng, schema, spec, k)
         if tier != 'quick' and i % 10 == 0:
             import itertools
@@ -64,7 +72,10 @@ def cases(rng, tier):
                 for t in itertools.product(alpha, repeat=ln):
                     if list(t) not in names:
                         names.append(list(t))
-        yield {'schema': schema, 'names': names, 'digest': rng.random() < 0.1}
+        case = {'schema': schema, 'names': names, 'digest': rng.random() < 0.1}
+        if asym is not None:
+            case['oracle_only'] = True
+        yield case
 
 
 def shrink(case):
@@ -96,7 +107,7 @@ def _rule_set(outs, symbols):
 
 def run_impl(case):
     Component, Name, compile_lvs, Checker, SemanticError, LvsModelError, DFN, bny = L.mods()
-    fns = L.user_fns(L.FN_NAMES)
+    fns = L.user_fns(L.FN_NAMES + (['$first'] if case.get('oracle_only') else []))
     spec = L.Spec(case['schema'], fns)
     res = {'token': None, 'ctoken': None, 'symbols': None}
     try:
@@ -145,6 +156,8 @@ def run_impl(case):
 
 
 def model_line(case, impl):
+    if case.get('oracle_only'):
+        return None
     # the Lean side starts from the schema AST: compiler model -> loader model -> matcher model
     names = [L.name_bytes(n, case['digest']) for n in case['names']]
     return 'C11 cfull %s %s %s' % (L.enc_schema(case['schema']), L.enc_env(L.FN_NAMES), '/'.join(L.enc_name(n) for n in names))
@@ -233,6 +246,11 @@ def tags(case, impl):
     ids = [r['id'] for r in case['schema']['rules']]
     if len(set(ids)) < len(ids):
         t.append('schema:redefinition')
+    if case.get('oracle_only'):
+        t.append('schema:order-sensitive-user-function(oracle only)')
+    for m, tg in (('#r2', 'later-definition-carries-constraints-referred-twice'), ('#u3', 'triple-or-nested-reference'), ('#_d', 'temporary-rule-id-twice')):
+        if m in ids:
+            t.append('motif:' + tg)
     return t
 
 
